@@ -363,9 +363,7 @@ pub open spec fn rest_of(m: Seq<(Value, Value)>) -> Seq<(Label, Value)>
         }
     }
 }
-pub assume_specification [ <Header as Default>::default ] () -> (h: Header)
-    ensures h.alg is None && h.crit@.len() == 0 && h.content_type is None && h.key_id@.len() == 0 && h.iv@.len() == 0
-        && h.partial_iv@.len() == 0 && h.counter_signatures@.len() == 0 && h.rest@.len() == 0;»
+»
 
 /// Maximum nesting of protected headers within counter signatures within headers.
 pub(crate) const MAX_HEADER_NESTING: usize = 16;
